@@ -240,6 +240,39 @@ def check_c18(case, impl):
     return None
 
 
+def check_discipline(case, impl):
+    """C07 on a hook trace: every request for the content of a child slot is made while the thread holds that slot's lock;
+    every update of the reference count is AcqRel; nothing touches a block after it was freed"""
+    po = parse_out(impl)
+    if po is None:
+        return "malformed output (crash?): " + impl[:200]
+    trace, results, tail = po
+    held = {}           # tid -> set of (lock id)
+    freed = set()
+    for k, (tid, e) in enumerate(trace):
+        c = e[0]
+        if c in "()":
+            continue
+        h = held.setdefault(tid, set())
+        if c in "RW":
+            h.add((c, e[1:]))
+        elif c in "rw":
+            h.discard((c.upper(), e[1:]))
+        elif c == "a":
+            if ("R", e[1:]) not in h and ("W", e[1:]) not in h:
+                return "thread %s requests the content of slot %s without holding its lock (event %d)" % (tid, e[1:], k)
+        elif c in "+-":
+            if "~" in e:
+                return "reference count update %s is not AcqRel (event %d)" % (e, k)
+        elif c == "F":
+            freed.add(e[1:])
+        if c in "RWrwa" and e[1:].split(".")[0] in freed:
+            return "event %s touches block %s after it was freed" % (e, e[1:].split(".")[0])
+        if c in "DdEe" and e[1:] in freed:
+            return "data lock event %s on block %s after it was freed" % (e, e[1:])
+    return None
+
+
 def schedules(length, nthreads, max_switches):
     """all schedules of the given length that change the running thread at most max_switches times"""
     out = []
